@@ -49,6 +49,16 @@ func genStr(c *Ctx, max int) string {
 
 func c23Run(c *Ctx) {
 	const maxFrame = 256 << 10
+	// The serializer caches resolved message types per process. Resolve every kind
+	// the generator can produce first, so that the cache is in the same (warm) state
+	// in every run after the worker's discarded warm-up run, wherever the run sits in
+	// a batch: otherwise the first use of a kind in a process takes a longer path and
+	// a run's schedule depends on what earlier runs of the process happened to send.
+	for k := 0; k < 6; k++ {
+		if b, err := simstream.Marshal(simstream.GenMessage(k, 0, "")); err == nil {
+			_, _, _ = simstream.Unmarshal(b)
+		}
+	}
 	cfg := simnet.Config{Fragment: c.F.Draw(4) != 0, LatencyMax: time.Duration(c.F.Draw(3)) * time.Millisecond}
 	nw := simglue.EnableNet(c.F, cfg)
 	defer simglue.DisableNet()
@@ -195,10 +205,67 @@ func c23Malformed(c *Ctx, nw *simnet.Network, srv *simstream.Server, maxFrame in
 	runtime.ReadMemStats(&ms)
 	before := ms.TotalAlloc
 	ntries := 1 + c.W.Draw(4)
+	// a second well-formed frame that carries a metadata block (1-3 headers): the
+	// nested block has length fields of its own that can lie independently of the
+	// outer frame length
+	hdrs := map[string]string{}
+	for i, n := 0, 1+c.W.Draw(3); i < n; i++ {
+		hdrs[fmt.Sprintf("k%d%s", i, genStr(c, 6))] = genStr(c, 8)
+	}
+	goodMeta, err := simstream.MarshalMeta(simstream.GenMessage(c.W.Draw(6), c.W.Draw(100), genStr(c, 20)), hdrs)
+	if err != nil {
+		c.Fail("marshal-error", "serializer", "%v", err)
+		return
+	}
 	for t := 0; t < ntries && !c.Failed(); t++ {
 		frame := append([]byte(nil), good...)
-		kind := c.W.Draw(6)
+		kind := c.W.Draw(10)
+		if kind >= 6 {
+			frame = append([]byte(nil), goodMeta...)
+		}
+		// metadata block boundaries inside goodMeta-shaped frames
+		metaStart, metaLen := 0, 0
+		if kind >= 6 && len(frame) >= 12 {
+			nameLen := int(binary.BigEndian.Uint32(frame[4:8]))
+			metaLen = int(binary.BigEndian.Uint32(frame[8:12]))
+			metaStart = 12 + nameLen
+		}
 		switch kind {
+		case 6: // the metadata block is cut short at an arbitrary inner byte; outer lengths stay consistent
+			if metaLen > 0 {
+				keep := c.W.Draw(metaLen)
+				if c.W.Draw(3) == 0 && metaLen > 10 {
+					keep = 10 + c.W.Draw(metaLen-10) // past the minimum size the decoder checks first
+				}
+				cut := metaLen - keep
+				frame = append(frame[:metaStart+keep:metaStart+keep], frame[metaStart+metaLen:]...)
+				binary.BigEndian.PutUint32(frame[8:12], uint32(keep))
+				binary.BigEndian.PutUint32(frame[:4], uint32(len(goodMeta)-cut))
+			}
+			c.Fault("metadata-block-truncated")
+		case 7: // a key/value length inside the metadata block lies
+			if metaLen >= 4 {
+				off := metaStart + 2 // first key length
+				if c.W.Draw(2) == 1 {
+					kl := int(binary.BigEndian.Uint16(frame[off:]))
+					if off+2+kl+2 <= metaStart+metaLen {
+						off += 2 + kl // first value length
+					}
+				}
+				rest := metaStart + metaLen - off - 2
+				binary.BigEndian.PutUint16(frame[off:], []uint16{uint16(rest), uint16(rest + 1), uint16(max(rest-1, 0)), 0xffff, uint16(max(rest-8, 0)), uint16(max(rest-7, 0))}[c.W.Draw(6)])
+			}
+			c.Fault("metadata-inner-length-corrupt")
+		case 8: // the header count lies
+			if metaLen >= 2 {
+				binary.BigEndian.PutUint16(frame[metaStart:], []uint16{0, 1, 2, 9, 0xffff}[c.W.Draw(5)])
+			}
+			c.Fault("metadata-count-corrupt")
+		case 9: // the metadata length field of the frame lies
+			if len(frame) >= 12 {
+				binary.BigEndian.PutUint32(frame[8:12], []uint32{0, 1, 9, 10, uint32(metaLen + 1), uint32(max(metaLen-1, 0)), uint32(len(frame)), 0x7fffffff, 0xffffffff}[c.W.Draw(9)])
+			}
+			c.Fault("metadata-length-corrupt")
 		case 0: // truncate at an arbitrary byte boundary, then close
 			frame = frame[:c.W.Draw(len(frame))]
 			c.Fault("frame-truncated")
